@@ -4,6 +4,7 @@
 package simnet
 
 import (
+	"context"
 	"errors"
 	"fmt"
 	"io"
@@ -337,6 +338,35 @@ func (c *Conn) Close() error {
 	return nil
 }
 
+// ClientHello is what a simulated TLS client sends first; a server-side handshake waits for exactly these bytes.
+const ClientHello = "CHLO"
+
+// SimHandshake plays the server side of a TLS handshake on this endpoint (simrt.TLSConn calls it): it waits for the
+// client hello, as long as it takes unless the read deadline, the context or the end of the connection interrupts it.
+// A context that ends interrupts the handshake by closing the connection, like crypto/tls does.
+func (c *Conn) SimHandshake(ctx context.Context) error {
+	var got []byte
+	for len(got) < len(ClientHello) {
+		c.S.WaitUntil("tls-handshake", func() bool {
+			return len(c.rd.buf) > 0 || c.rd.wclosed || c.rd.reset || c.local || c.dead != nil || ctx.Err() != nil || expired(c.rdDeadline)
+		})
+		if err := ctx.Err(); err != nil && len(c.rd.buf) == 0 {
+			_ = c.Close()
+			return err
+		}
+		buf := make([]byte, len(ClientHello)-len(got))
+		n, err := c.Read(buf)
+		got = append(got, buf[:n]...)
+		if err != nil {
+			return err
+		}
+	}
+	if string(got) != ClientHello {
+		return errors.New("tls: first record does not look like a TLS handshake")
+	}
+	return nil
+}
+
 // SockOpt receives the socket options set through simrt.TCPConn.
 func (c *Conn) SockOpt(name string, v int) error {
 	if c.local {
@@ -415,6 +445,9 @@ type Listener struct {
 	Accepted   int
 	Dials      int
 	conns      []*Conn // server-side endpoints, in dial order
+	// TLS: accepted connections are handed out as (simulated) TLS connections: the server side of each waits for the
+	// client hello before anything else (see SimHandshake)
+	TLS bool
 }
 
 // ServerConns returns the server-side endpoints of every connection dialled so far.
@@ -433,6 +466,9 @@ func (l *Listener) Accept() (net.Conn, error) {
 	if l.AcceptLate > 0 && l.S.Chance(l.AcceptLate, 1000) {
 		l.S.Fault("accept-late")
 		l.S.YieldNow("accept-late")
+	}
+	if l.TLS {
+		return &simrt.TLSConn{Conn: &simrt.TCPConn{Conn: c}}, nil
 	}
 	return &simrt.TCPConn{Conn: c}, nil
 }
